@@ -1392,6 +1392,15 @@ class Idioms2(ast.NodeTransformer):
                                                    ctx=ast.Load()), it)
         return node
 
+    def visit_comprehension(self, node):
+        self.generic_visit(node)
+        it = node.iter
+        if isinstance(it, ast.Name) and it.id in self.coll and \
+                isinstance(self.coll[it.id], (ast.Tuple, ast.List)) and \
+                len(self.coll[it.id].elts) <= 12:
+            node.iter = ast.copy_location(clone(self.coll[it.id]), it)
+        return node
+
     def _stmts(self, body):
         out = []
         for st in body:
@@ -2094,6 +2103,8 @@ def normalize_module(tree: ast.Module, extern=None) -> ast.Module:
     _inline_contextmanagers(tree)
     from . import normalize2 as n2
     n2.closure_forms(tree)
+    n2.generators_to_lists(tree)
+    n2.class_constants(tree)
     for n in ast.walk(tree):
         if isinstance(n, ast.FunctionDef):
             n2.inline_local_defs(n)
@@ -2125,6 +2136,11 @@ def normalize_module(tree: ast.Module, extern=None) -> ast.Module:
             break
         # (a second round folds helpers that only became direct calls
         # after a dispatch loop was unrolled)
+    for n in ast.walk(tree):
+        if isinstance(n, ast.FunctionDef):
+            for _ in range(4):
+                if not n2.collapse_aliases(n):
+                    break
     tree = AttrCalls().visit(tree)
     n2.sort_keywords(tree)
     ntypes = _namedtuples(tree)
